@@ -7,7 +7,7 @@ import os, glob
 import vlib, proglib
 import C05_walk
 
-PROP_FILES = ["Properties_C05.v", "Properties_gen.v", "Properties_compose.v", "Properties_e2e.v"]
+PROP_FILES = ["Properties_C05.v", "Properties_gen.v", "Properties_compose.v", "Properties_e2e.v", "Properties_links.v"]
 
 
 def run(ctx):
